@@ -3,8 +3,8 @@
 P="$1"; ID="$2"; TIER="${3:-quick}"
 cd /repo || exit 2
 if [ -n "$(git status --porcelain --untracked-files=no)" ]; then echo "repo dirty"; exit 2; fi
-git apply "$P" || git apply --3way "$P" || { echo "patch does not apply"; git checkout -- .; exit 2; }
+git apply "$P" 2>/dev/null || git apply --3way "$P" || { echo "patch does not apply"; git reset -q --hard HEAD; exit 2; }
 cd /verif && bin/check "$ID" "$TIER" > /tmp/trymut.$$.log 2>&1; rc=$?
-git -C /repo checkout -- . ; git -C /repo reset -q
+git -C /repo reset -q --hard HEAD
 grep -E "VIOLATION|KNOWN-FINDING|runs=" /tmp/trymut.$$.log | cut -c1-400 | head -8
 echo "exit=$rc"; rm -f /tmp/trymut.$$.log
